@@ -21,6 +21,7 @@ This client can be used interchangeably with the Cloud Vizier client.
 
 import datetime
 import functools
+import threading
 import time
 from typing import Any, Dict, List, Mapping, Optional, Union
 
@@ -72,6 +73,9 @@ class _EnvironmentVariables:
 environment_variables = _EnvironmentVariables()
 
 
+_local_servicer_lock = threading.Lock()
+
+
 @functools.lru_cache(maxsize=None)
 def _create_local_vizier_servicer() -> (
     vizier_service_pb2_grpc.VizierServiceServicer
@@ -86,7 +90,10 @@ def create_vizier_servicer_or_stub() -> types.VizierService:
   if endpoint == constants.NO_ENDPOINT:
     logging.info('No endpoint given; using cached local VizierServicer.')
     logging.warning('Python 3.8+ is required in this case.')
-    return _create_local_vizier_servicer()
+    # lru_cache does not serialize the first call: two threads arriving
+    # together would each build a servicer (with its own locks and datastore).
+    with _local_servicer_lock:
+      return _create_local_vizier_servicer()
   return stubs_util.create_vizier_server_stub(endpoint)
 
 
